@@ -470,6 +470,43 @@ impl Exec {
         None
     }
 
+    /// The mirror image: (call index, rows) of an LP call of the current operation in which the real
+    /// backend said Optimal for a system whose rows all have unit norm (or are zero) and which the
+    /// exact LP finds EMPTY (no box: emptiness is judged on the whole space).
+    fn refuted_optimal_answer(&self) -> Option<(usize, usize)> {
+        for r in &self.last_records {
+            if !r.zero_objective || r.real != lpseam::StatusKind::Optimal || r.returned != lpseam::StatusKind::Optimal || r.fault_family.is_some() || r.action.is_some() {
+                continue;
+            }
+            let dim = r.mat.first().map(|x| x.len()).unwrap_or(0);
+            if dim == 0 || r.mat.iter().flatten().chain(r.bias.iter()).any(|v| !v.is_finite()) {
+                continue;
+            }
+            let unit = r.mat.iter().all(|row| {
+                let n: f64 = row.iter().map(|v| v * v).sum::<f64>().sqrt();
+                n == 0.0 || (n - 1.0).abs() < 1e-9
+            });
+            if !unit {
+                continue;
+            }
+            let rows = lpseam::rows_of(&r.mat, &r.bias);
+            if width(dim, &rows).class() == Class::Empty {
+                return Some((r.index, r.bias.len()));
+            }
+        }
+        None
+    }
+
+    fn attribute_optimal(&self, class: &str, detail: String) -> (String, String) {
+        match self.refuted_optimal_answer() {
+            Some(r) => (
+                format!("{class}_after_refuted_optimal_answer"),
+                format!("{detail}; LP call #{} ({} unit-norm rows) was answered Optimal by the real backend although the exact LP proves the system empty", r.0, r.1),
+            ),
+            None => (class.to_string(), detail),
+        }
+    }
+
     /// Root-cause attribution (DESIGN.md 6.13): if the real backend, during the current operation,
     /// answered Infeasible for a row-normalized system that the exact LP proves FAT, the violation
     /// class says so - that is what the open backend finding is keyed on.
@@ -1027,7 +1064,7 @@ impl Exec {
                             let (class, detail) = if terms < fat {
                                 self.attribute("terminal_count_outside_region_bounds", detail)
                             } else {
-                                ("terminal_count_outside_region_bounds".to_string(), detail)
+                                self.attribute_optimal("terminal_count_outside_region_bounds", detail)
                             };
                             out.violations.push(self.viol(Clause::Effective, &class, &site, detail));
                             if self.stops(Clause::Effective) {
@@ -1204,6 +1241,7 @@ impl Exec {
         self.stats.c06_nodes_examined += st.nodes_examined;
         self.stats.c06_thin_nodes_kept += st.thin_nodes_kept;
         if let Err((class, detail)) = res {
+            let (class, detail) = if class == "empty_region_kept" { self.attribute_optimal(&class, detail) } else { (class, detail) };
             out.violations.push(self.viol(Clause::Effective, &class, site, detail));
             if self.stops(Clause::Effective) {
                 out.stop = true;
